@@ -1,6 +1,7 @@
 package main
 
 import (
+	"strconv"
 	"encoding/json"
 	"flag"
 	"fmt"
@@ -78,6 +79,12 @@ func main() {
 		os.Exit(2)
 	}
 	timeout := 10
+	if v := os.Getenv("GOVC_TIMEOUT_S"); v != "" {
+		// testing aid: a budget too small to answer anything exercises the no-answer paths
+		if n, err := strconv.Atoi(v); err == nil && n >= 0 {
+			timeout = n
+		}
+	}
 	all := false
 	if *tier == "thorough" {
 		timeout = 60
@@ -359,6 +366,12 @@ func buildReport(eng *Engine, prop, tier string, units []*UnitResult, verifDir s
 		if !confirmed {
 			suffix = " no-failing-input-found"
 		}
+		if no.Status == "unknown" && inLedger[no.Name] && r.unchangedSince(no.Name) {
+			// same code, same contracts, hence the same verification condition as on the pinned tree, where it was
+			// discharged: a solver that gives no answer now (even with six times the budget) is short of time, not refuted
+			r.undecided = append(r.undecided, fmt.Sprintf("UNDECIDED property=%s %s (no solver answer within the budget; the unit's package and all contract files are byte-identical to the pinned tree, where this obligation is discharged: machine load, not a violation)", prop, no.Name))
+			continue
+		}
 		if no.Status == "unknown" && !inLedger[no.Name] && len(ledger[prop]) > 0 {
 			r.undecided = append(r.undecided, fmt.Sprintf("UNDECIDED property=%s %s (no solver answer; obligation was never discharged on the pinned tree)", prop, no.Name))
 			continue
@@ -380,6 +393,64 @@ func buildReport(eng *Engine, prop, tier string, units []*UnitResult, verifDir s
 		r.exitCode = 2
 	}
 	return r
+}
+
+// unchangedSince: the package directory of the obligation's source position and every contract file have the
+// hashes recorded in baseline_hashes.json (written together with the ledger on the pinned tree).
+func (r *Report) unchangedSince(oblName string) bool {
+	if r.eng == nil {
+		return false
+	}
+	// the unit's package: the longest package key that prefixes the obligation's name
+	pos, best := "", ""
+	for pkgPath := range r.eng.specs {
+		sp := shortPkg(pkgPath)
+		if strings.HasPrefix(oblName, sp+".") && len(sp) > len(best) {
+			best = sp
+			pos = strings.TrimPrefix(strings.TrimPrefix(pkgPath, repoModule), "/") + "/x.go"
+		}
+	}
+	if pos == "" {
+		return false
+	}
+	data, err := os.ReadFile(filepath.Join(r.verifDir, "baseline_hashes.json"))
+	if err != nil {
+		return false
+	}
+	base := map[string]string{}
+	if json.Unmarshal(data, &base) != nil || len(base) == 0 {
+		return false
+	}
+	file := pos
+	if i := strings.Index(file, ":"); i >= 0 {
+		file = file[:i]
+	}
+	if filepath.IsAbs(file) {
+		if rel, err := filepath.Rel(r.eng.repo, file); err == nil {
+			file = rel
+		}
+	}
+	dir := filepath.Dir(file)
+	relevant := func(p string) bool {
+		return filepath.Dir(p) == dir || filepath.Base(p) == "zz_contracts_verif.go"
+	}
+	n := 0
+	for p, h := range r.eng.fileHashes {
+		if relevant(p) {
+			n++
+			if base[p] != h {
+				return false
+			}
+		}
+	}
+	for p := range base {
+		if relevant(p) {
+			if _, ok := r.eng.fileHashes[p]; !ok {
+				return false
+			}
+		}
+	}
+	return n > 0
 }
 
 func (r *Report) writeReplay(no *NamedObl, rtext string) string {
